@@ -29,7 +29,7 @@ def plumbing(fw, extra=""):
     """W1: imports at the top of a woven file"""
     fw._plumbed = True
     first = min((n["span"][0] for n in fw.nodes if n["parent"] == -1), default=0)
-    fw.insert(first, "#[allow(unused_imports)] use vstd::prelude::*;\n#[allow(unused_imports)] use crate::verif_specs::*;\n#[allow(unused_imports)] use crate::verif_prelude::*;\nverus!{ broadcast use {crate::verif_prelude::group_pyxis_axioms, crate::verif_specs::group_path_axioms, crate::verif_specs::group_vftable_axioms, crate::verif_specs::group_builtin_axioms}; }\n" + extra, rule="W1")
+    fw.insert(first, "#[allow(unused_imports)] use vstd::prelude::*;\n#[allow(unused_imports)] use crate::verif_specs::*;\n#[allow(unused_imports)] use crate::verif_prelude::*;\nverus!{ broadcast use {crate::verif_prelude::group_pyxis_axioms, crate::verif_specs::group_path_axioms, crate::verif_specs::group_vftable_axioms, crate::verif_specs::group_builtin_axioms, crate::verif_specs::group_module_axioms}; }\n" + extra, rule="W1")
 
 
 def plumbing_once(fw):
@@ -436,7 +436,7 @@ def hoist_fn(ctx, fw, inner_qual, target):
     return fn
 
 
-def from_impl_into_verus(ctx, fw, src_ty, dst_ty, spec_expr, tags=()):
+def from_impl_into_verus(ctx, fw, src_ty, dst_ty, spec_expr, tags=(), trusted=False):
     """a `impl From<S> for D` becomes verified: the impl moves into verus!{} and a ghost
     `FromSpecImpl` states the conversion (vstd checks the body of `from` against it)."""
     ims = fw.impls(dst_ty, "From<%s>" % src_ty)
@@ -446,8 +446,10 @@ def from_impl_into_verus(ctx, fw, src_ty, dst_ty, spec_expr, tags=()):
     fw.insert(im["span"][0], "verus!{\nimpl vstd::std_specs::convert::FromSpecImpl<%s> for %s {\n    open spec fn obeys_from_spec() -> bool { true }\n    open spec fn from_spec(v: %s) -> %s { %s }\n}\n" % (src_ty, dst_ty, src_ty, dst_ty, spec_expr), rule="W3")
     fw.insert(im["span"][1], "\n} // verus!\n", rule="W3")
     fns = [n for n in fw.nodes if n["kind"] == "fn" and fw._impl_of(n) is im]
+    if trusted:
+        fw.insert(fns[0]["span"][0], "#[verifier::external_body]\n", rule="W3")
     unit = "%s::<From<%s> for %s>::from" % (fw.rel[:-3].replace("/mod", "").replace("/", "::"), src_ty, dst_ty)
-    ctx.units[unit] = {"unit": unit, "file": fw.rel, "fn": "<From<%s> for %s>::from" % (src_ty, dst_ty), "mode": "V", "tags": sorted(tags), "span": fns[0]["span"],
+    ctx.units[unit] = {"unit": unit, "file": fw.rel, "fn": "<From<%s> for %s>::from" % (src_ty, dst_ty), "mode": ("T" if trusted else "V"), "tags": sorted(tags), "span": fns[0]["span"],
                        "line": fw.line_of(fns[0]["span"][0]), "end_line": fw.line_of(fns[0]["span"][1]), "verus_name": None}
 
 
